@@ -602,6 +602,15 @@ def conforms(ty: Ty, obj, depth=0) -> bool:
             if ty.x.get('bare'):
                 return True
             args = t.get_args(obj)
+            if k == 'vol' and args:
+                # ValueOrList[T] builds typing.List[T] itself: typing's alias cache may hand it an equal-but-reordered alias
+                # made earlier in this process (List[Literal[0, False]] for List[Literal[False, 0]])
+                try:
+                    inner_list = t.List[args[0]]
+                except Exception:
+                    return False
+                if not conforms(Ty('list', [ty.a[0]]), inner_list, depth + 1):
+                    return False
             return bool(args) and conforms(ty.a[0], args[0], depth + 1)
         if k == 'tup':
             args = obj if isinstance(obj, tuple) else t.get_args(obj)
